@@ -37,23 +37,9 @@ theorem C02_source_facts :
     roomHandlerSteps = ["bruteforce-check", "bruteforce-429", "backend-nil", "read-backend-header",
       "header:lookup-or-403", "noheader:compat-else-search-or-403", "validate-or-403", "decode"] := by decide
 
-/-! ## 1. hex is injective -/
+/-! ## 1. hex is injective: `Bytes.toHex_injective` (Basic/Bytes.lean) -/
 
-theorem hexDigit_inj : ∀ x, x < 16 → ∀ y, y < 16 → Bytes.hexDigit x = Bytes.hexDigit y → x = y := by decide
-
-theorem toHex_injective : ∀ {a b : Bytes}, Bytes.toHex a = Bytes.toHex b → a = b
-  | [], [], _ => rfl
-  | [], _ :: _, h => by simp [Bytes.toHex] at h
-  | _ :: _, [], h => by simp [Bytes.toHex] at h
-  | x :: a, y :: b, h => by
-    simp only [Bytes.toHex, List.cons.injEq] at h
-    obtain ⟨h1, h2, h3⟩ := h
-    have hx := x.toNat_lt
-    have hy := y.toNat_lt
-    have e1 := hexDigit_inj _ (by omega) _ (by omega) h1
-    have e2 := hexDigit_inj _ (Nat.mod_lt _ (by omega)) _ (Nat.mod_lt _ (by omega)) h2
-    have : x.toNat = y.toNat := by omega
-    rw [UInt8.toNat_inj.mp this, toHex_injective h3]
+open SigModel.Bytes (toHex_injective toHex_length)
 
 /-! ## 2. The handler accepts iff the checksum is the HMAC under the claimed backend's secret -/
 
@@ -340,11 +326,6 @@ theorem C02_boundary_shift_not_403 :
   decide
 
 /-! ## 6. Outgoing requests -/
-
-theorem toHex_length (b : Bytes) : (Bytes.toHex b).length = 2 * b.length := by
-  induction b with
-  | nil => rfl
-  | cons x r ih => simp only [Bytes.toHex, List.length_cons, ih]; omega
 
 /-- **C02_outgoing.** Every request `PerformJSONRequest` sends for a URL that resolves to
 backend `b` carries a random of 64 hex characters made of 32 bytes of entropy and a checksum
